@@ -169,6 +169,40 @@ Proof.
                         jws7797_default_has_b64).
 Qed.
 
+(* hence an accepted header has alg (and enc for JWE) as strings, and b64 only as
+   a boolean accompanied by a crit listing it *)
+Theorem c15_alg_present : forall rk extra strict h,
+  ~ In alg_name (reg_names extra) ->
+  header_ok (mk_registry (default_reg rk) extra) strict h = true ->
+  exists s, dget h alg_name = Some (PStr s).
+Proof. exact alg_present. Qed.
+
+Theorem c15_enc_present : forall extra strict h,
+  ~ In enc_name (reg_names extra) ->
+  header_ok (mk_registry jwe_header_registry extra) strict h = true ->
+  exists s, dget h enc_name = Some (PStr s).
+Proof. exact enc_present. Qed.
+
+Theorem c15_b64_is_bool_with_crit : forall extra strict h v,
+  ~ In b64_name (reg_names extra) ->
+  header_ok7797 (mk_registry jws7797_default_header_registry extra) strict h = true ->
+  dget h b64_name = Some v ->
+  (exists b, v = PBool b) /\ exists l, dget h crit_name = Some (PList l) /\ In (PStr b64_name) l.
+Proof. exact b64_is_bool. Qed.
+
+(* JWE: an accepted header names a registered, permitted algorithm whose own
+   parameters are well-typed, present when required on the consuming side
+   (check_more = true), and are the only extra names strict mode lets through *)
+Theorem c15_jwe_alg_specific : forall tbl rec allowed reg strict h check_more,
+  jwe_check_header tbl rec allowed reg strict h check_more = Ok tt ->
+  exists s row,
+    dget h alg_name = Some (PStr s) /\ find_alg tbl s = Some row /\
+    alg_permitted rec allowed s = true /\
+    (check_more = true -> required_present_P (ea_more row) h) /\
+    types_ok_P (ea_more row) h /\
+    (strict = true -> forall k, In k (dkeys h) -> In k (reg_names reg) \/ In k (reg_names (ea_more row))).
+Proof. exact jwe_accept_more. Qed.
+
 (* reading of reg_has: such an entry is really in the registry *)
 Theorem c15_reg_has_meaning : forall reg n k rq,
   reg_has reg n k rq = true <->
@@ -195,6 +229,14 @@ Theorem c15_caller_registered_enforced : forall extra strict h p,
   (hp_required p = true -> exists v, dget h (pname p) = Some v) /\
   (forall v, dget h (pname p) = Some v -> json_type_ok (hp_kind p) v = true).
 Proof. exact caller_enforced_jws. Qed.
+
+(* ... and it is accepted: added well-typed to an accepted header, the header stays accepted *)
+Theorem c15_caller_registered_accepted : forall default extra strict h p v,
+  In p extra -> NoDup (reg_names extra) -> pname p <> crit_name ->
+  header_ok (mk_registry default extra) strict h = true ->
+  dmem h (pname p) = false -> json_type_ok (hp_kind p) v = true ->
+  header_ok (mk_registry default extra) strict (h ++ [(pname p, v)])%list = true.
+Proof. exact caller_accepted. Qed.
 
 Example c15_ex_caller :
   let extra := [hp "x-int" VInt true; hp "x-ch" (VChoices ["a"; "b"]%string) false] in
@@ -269,6 +311,11 @@ Print Assumptions c15_alg_required.
 Print Assumptions c15_enc_required.
 Print Assumptions c15_b64_registered.
 Print Assumptions c15_reg_has_meaning.
+Print Assumptions c15_alg_present.
+Print Assumptions c15_enc_present.
+Print Assumptions c15_b64_is_bool_with_crit.
+Print Assumptions c15_jwe_alg_specific.
+Print Assumptions c15_caller_registered_accepted.
 Print Assumptions c15_caller_registered_in_force.
 Print Assumptions c15_caller_registered_name.
 Print Assumptions c15_caller_registered_enforced.
